@@ -36,7 +36,22 @@ type cacheAPI interface {
 type tokenCacheAPI struct{ tc *oidc.TokenCache }
 
 func (a tokenCacheAPI) Set(k string, v interface{}, ttl time.Duration) {
-	a.tc.Set(k, map[string]interface{}{"v": v}, ttl)
+	// the claims are what the caller stores: whatever they say (an exp in the past, as a float64 or an int; other registered
+	// names), the entry lives for the lifetime it was given
+	cl := map[string]interface{}{"v": v}
+	if n, ok := v.(int); ok {
+		switch n % 5 {
+		case 1:
+			cl["exp"] = float64(time.Now().Unix() - 100)
+		case 2:
+			cl["exp"] = float64(time.Now().Unix() + 5)
+		case 3:
+			cl["exp"], cl["nbf"], cl["iat"] = time.Now().Unix()-100, float64(time.Now().Unix()+3600), "yesterday"
+		case 4:
+			cl["exp"] = 0.0
+		}
+	}
+	a.tc.Set(k, cl, ttl)
 }
 func (a tokenCacheAPI) Get(k string) (interface{}, bool) {
 	cl, ok := a.tc.Get(k)
